@@ -55,17 +55,20 @@ def F(name, filename, ctype, content, clen=None):
 
 
 def case(boundary, fields, mem=102400, k=0, framing='cl', first='POST', chunks=None, blk=3, with_body=False,
-         ops=None, sched=None, app='own', cfg_via='ctor', copy=False, second=None, api=False):
+         ops=None, sched=None, app='own', cfg_via='ctor', copy=False, second=None, api=False, cl_with_te=None):
     """blk: block size of the interleaved pass (every upload is read blk bytes at a time, round robin);
     with_body: Request.body is also read from between the rounds;
     ops: script of file operations run on every upload: ['r', n] read(n) (n < 0: read()), ['s', pos, whence], ['t'];
     sched: short-read schedule of wsgi.input; app: 'own' (fresh Ombott) | 'shared' (one module-level application
     serving many cases); cfg_via: how max_memfile_size is configured: 'ctor' | 'setup' | 'default' (needs mem=102400);
     copy: also read the form through Request.copy(); second: another field list posted through the SAME request
-    object by replacing wsgi.input (cache invalidation); api: exercise the rest of the FileUpload / BytesIOProxy API"""
+    object by replacing wsgi.input (cache invalidation); api: exercise the rest of the FileUpload / BytesIOProxy API;
+    cl_with_te: under chunked framing, a Content-Length header sent NEXT to Transfer-Encoding: chunked — 'wire' (length of
+    the chunk-framed stream), 'body' (length of the payload), 'short', 'long', 'zero'; chunked framing wins
+    (C05_chunked_overrides_content_length), so the form must round-trip all the same"""
     return dict(boundary=cps(boundary), fields=fields, mem=mem, k=k, framing=framing, first=first,
                 chunks=chunks or [7], blk=blk, with_body=with_body, ops=ops or [], sched=sched or [], app=app,
-                cfg_via=cfg_via, copy=copy, second=second, api=api)
+                cfg_via=cfg_via, copy=copy, second=second, api=api, cl_with_te=cl_with_te)
 
 
 # ---------------------------------------------------------------- dev-only line coverage of the anchored code
@@ -183,6 +186,11 @@ def _on_alarm(signum, frame):
 def call_guarded(f):
     """run f() under the per-request alarm; returns (True, result) or (False, None) when it did not terminate"""
     import signal
+    import threading
+    if threading.current_thread() is not threading.main_thread():
+        # served on a worker thread (tools/check.py does that for every 4th case): signals belong to the main
+        # thread, whose own alarm in check.py covers a hang here
+        return True, f()
     limit = HANG_FAST if _HANGS['n'] >= HANG_K else HANG_LIMIT
     old = signal.signal(signal.SIGALRM, _on_alarm)
     signal.setitimer(signal.ITIMER_REAL, limit)
@@ -248,8 +256,8 @@ def valid(case):
     b = case['boundary']
     if case['mem'] < 1 or (case['framing'] == 'chunked' and case['mem'] < 5):
         return False         # _iter_chunked needs a buffer at least as long as a chunk-size line (C05)
-    if not b or any(chr(c) not in BCHARS + ' ' for c in b) or b[-1] == 32:
-        return False
+    if not b or any(chr(c) not in BCHARS + ' ' for c in b) or b[-1] == 32 or len(b) > 70:
+        return False         # RFC 2046: 1..70 bchars, not ending in a space
     tok = b'\r\n--' + bytes(b)
     if case.get('cfg_via') == 'default' and case['mem'] != 102400:
         return False
@@ -333,6 +341,25 @@ def corpus():
         case('XyZ', [T('b', '2')], app='shared', cfg_via='setup', mem=64),
         case('XyZ', [F('f', 'x', 'a/b', b'D' * 200)], app='shared', cfg_via='setup', mem=120),
         case('XyZ', [T('a', 'v')], cfg_via='default'),
+        # ---- both framing headers: Transfer-Encoding: chunked together with a Content-Length (equal / stale / short / 0)
+        case('XyZ', [T('a', 'v'), F('f', 'x', 'a/b', b'DATA' * 9)], framing='chunked', chunks=[9, 30], mem=64, cl_with_te='wire'),
+        case('XyZ', [T('a', 'v'), F('f', 'x', 'a/b', b'DATA' * 9)], framing='chunked', chunks=[9, 30], mem=64, cl_with_te='body'),
+        case('XyZ', [T('a', 'v'), F('f', 'x', 'a/b', b'DATA' * 9)], framing='chunked', chunks=[200], mem=300, cl_with_te='short',
+             first='files'),
+        case('XyZ', [T('a', 'v')], framing='chunked', chunks=[5], mem=64, cl_with_te='long', first='forms'),
+        case('XyZ', [T('a', 'v')], framing='chunked', chunks=[5], mem=64, cl_with_te='zero',
+             second=[T('b', 'w')]),
+        # ---- boundary lengths around the RFC 2046 maximum (70), the whole bchars alphabet, inner spaces
+        case('b', [T('a', 'v')]),
+        case('bb', [T('a', 'v')]),
+        case('B' * 69, [T('a', 'v'), F('f', 'x', 'a/b', b'\r\n--' + b'B' * 68)]),
+        case('B' * 70, [T('a', 'v'), F('f', 'x', 'a/b', b'\r\n--' + b'B' * 69)]),
+        case('B' * 69 + '?', [T('a', 'v')], framing='chunked', chunks=[40]),
+        case("0123456789abcdefghijklmnopqrstuvwxyzABCDEFGHIJKLMNOPQRSTUVWXYZ'()+_,-./", [T('a', 'v')]),
+        case("'()+_,-./:=? x", [T('a', 'v'), T('b', "'()+_,-./:=? ")]),
+        case('a' + ' ' * 68 + 'b', [T('a', 'v')]),
+        case('B' * 71, [T('a', 'v')]),           # longer than RFC 2046 allows: outside the property, model = code: accepted
+        case('B' * 200, [T('a', 'v')]),
         # ---- short reads / early fragments on wsgi.input under both framings
         case('XyZ', [T('a', 'v' * 20), F('f', 'x', 'a/b', bytes(range(90)))], mem=50, sched=[0, 0, 3, 1, 0, 7, 0, 0, 2] * 9),
         case('XyZ', [T('a', 'v' * 20), F('f', 'x', 'a/b', bytes(range(90)))], mem=50, framing='chunked', chunks=[11, 2, 40],
@@ -368,7 +395,10 @@ def gen(rng, n):
         if r < 0.15:
             boundary = rng.choice(['-', '--', 'abab', 'aa', 'XyZ', '----WebKitFormBoundary7MA4YWxkTrZu0gW'])
         else:
-            boundary = ''.join(rng.choice(BCHARS) for _ in range(rng.randrange(1, 12)))
+            blen = rng.choice([1, 2, 3, 5, 8, 11, 40, 68, 69, 70, 70]) if rng.random() < 0.4 else rng.randrange(1, 12)
+            boundary = ''.join(rng.choice(BCHARS + '  ') for _ in range(blen))
+            if boundary[-1] == ' ':
+                boundary = boundary[:-1] + rng.choice(BCHARS)
         fields = []
         for _ in range(rng.choice([0, 1, 1, 2, 2, 3, 3, 4, 5, 6])):
             name = gen_name(rng)
@@ -425,6 +455,7 @@ def gen(rng, n):
                  sched=[] if rng.random() < 0.6 else [rng.choice([0, 0, 1, 2, 3, 7, 20]) for _ in range(rng.randrange(1, 40))],
                  app=rng.choice(['own', 'own', 'shared']), cfg_via=cfg_via, copy=rng.random() < 0.25, second=second,
                  api=rng.random() < 0.25,
+                 cl_with_te=rng.choice([None, None, 'wire', 'body', 'short', 'long', 'zero']),
                    framing=framing, first=rng.choice(['POST', 'forms', 'files']),
                    chunks=[rng.randrange(1, 40) for _ in range(rng.randrange(1, 4))])
         assert valid(c), c
@@ -609,6 +640,10 @@ def _run_impl(case):
         wire = chunked(body, case['chunks'])
         env = environ('POST', '/', **{'wsgi.input': FragStream(wire, sched), 'CONTENT_TYPE': ctype,
                                       'HTTP_TRANSFER_ENCODING': 'chunked'})
+        both = case.get('cl_with_te')
+        if both:
+            env['CONTENT_LENGTH'] = str({'wire': len(wire), 'body': len(body), 'short': max(1, len(body) // 3),
+                                         'long': len(wire) + 1000, 'zero': 0}[both])
     else:
         env = environ('POST', '/', **{'wsgi.input': FragStream(body, sched), 'CONTENT_TYPE': ctype,
                                       'CONTENT_LENGTH': str(len(body))})
@@ -824,6 +859,8 @@ API_SURFACE = [
     ('config max_body_size', 'excluded: rejects the request (C13); exercised in C12'),
     ('one Ombott serving many requests', 'covered by app="shared" (a third of the generated cases, in sequence)'),
     ('wsgi.input short reads, Content-Length and chunked framing', 'covered by sched with framing cl|chunked'),
+    ('both framing headers (Transfer-Encoding: chunked + Content-Length)', 'covered by cl_with_te wire|body|short|long|zero'),
+    ('boundary: length 1..70 (RFC 2046 maximum), whole bchars alphabet, inner spaces; 71+ (illegal, accepted by the code)', 'covered by the boundary generator and corpus; 71+ compared with the model only'),
     ('FieldStorage.read / parse_header / iter_items, success paths', 'covered by every case'),
     ('FieldStorage error paths (BodyParsingError / BodySizeError raises)', 'excluded here: malformed bodies are C12 (246/246 lines there); the budget raise is covered (mem below budget)'),
     ('FieldStorage._patt', 'covered: names with ; = quotes-free text; text pinned (C07_option_regex_pinned)'),
